@@ -272,10 +272,35 @@ def red_why(rd):
         f"page {t!r} (ns {n}): the dump says {w!r}, the store says {g!r}" for (t, n, w, g) in rd[:3])
 
 
+def text_diff(missing, unexpected):
+    """-> [(title, ns, demanded text, stored text)] when the two row lists differ in nothing but
+    the texts of pages, else None"""
+    if not missing or len(missing) != len(unexpected):
+        return None
+    un = {(t, n, rd, m): b for (t, n, rd, b, m) in unexpected}
+    if len(un) != len(unexpected):
+        return None
+    out = []
+    for (t, n, rd, b, m) in missing:
+        if (t, n, rd, m) not in un:
+            return None
+        out.append((t, n, b, un[(t, n, rd, m)]))
+    return out
+
+
+def text_why(td, tplns):
+    return "altered text: " + "; ".join(
+        f"page {t!r} (ns {n}, {'the template namespace: the includable part is demanded' if n == tplns else 'not the template namespace: the text must be stored as written, whatever the title looks like'}): "
+        f"demanded {w!r}, the store says {g!r}" for (t, n, w, g) in td[:3])
+
+
 def describe(missing, unexpected):
     rd = red_diff(missing, unexpected)
     if rd:
         return red_why(rd)
+    td = text_diff(missing, unexpected)
+    if td:
+        return text_why(td, 10)  # G uses the English tables
     mk = {(t, n) for (t, n, *_r) in missing}
     uk = {(t, n) for (t, n, *_r) in unexpected}
     if mk & uk:
@@ -372,7 +397,7 @@ def report(o: Outcome, pool, cases, results, counts, gen="exhaustive"):
             o.classify(rec, f"ingestion {why}: missing {missing}, unexpected {unexpected} (a leading 'Main:' of a title is dropped by add_page)",
                        [DEV_MAIN], cls="asis")
         else:
-            o.violation(rec, f"ingestion: {'' if why.startswith('redirect') else 'page '}{why}: missing {missing}, unexpected {unexpected}", cls=why.split(" ")[0])
+            o.violation(rec, f"ingestion: {'' if why.startswith(('redirect', 'altered text')) else 'page '}{why}: missing {missing}, unexpected {unexpected}", cls=why.split(" ")[0])
 
 
 GEN_CFG = """SPECIFICATION GSpec
@@ -534,6 +559,11 @@ def rand_title(rng, site, ns, earlier):
         if cands:
             return rng.choice(cands)
     base = rng.choice(["Zed", "zed", "Ünï-çø", "日本語", "A:B", "a: b", "x/y", "x/y/z", "w", "Foo bar", "T:x", "Template:Q", "!", "=", "((", "))", "-", "documentation", "testcases"])
+    if rng.random() < 0.12:
+        # the text of the title equals / begins with the local name of a namespace (the template namespace
+        # mostly) without the page being in that namespace: "Template", "Templates", "Template talk", "Module-x"
+        word = site["names"][rng.choice([site["tplns"], site["tplns"], rng.choice(sorted(int(k) for k in site["names"] if int(k) != 0))])]
+        base = word + rng.choice(["", "s", "x", "-based", " talk", " " + base, "/" + base])
     r = rng.random()
     if r < 0.08:
         base += "/documentation"
@@ -639,6 +669,16 @@ def sweep_dumps(site):
         pages.append((pre + "Zed", int(i), "wikitext", None, BODY["b1"] + name))
         pages.append((pre + "Ünï/sub: x", int(i), "wikitext", None, BODY["b3"]))
     yield pages, sorted(int(i) for i in site["names"])
+    # title text x namespace x inclusion-control markup: in every namespace of the language data (talk
+    # namespaces included: their names usually extend the subject namespace's name) one page whose title
+    # begins with the local name of the template namespace, its text carrying noinclude / onlyinclude /
+    # includeonly markup; only the template namespace's own page is reduced to its includable part
+    word = site["names"][tpl]
+    pages = []
+    for k, (i, name) in enumerate(sorted(site["names"].items())):
+        pre = "" if int(i) == 0 else canon[str(i)]
+        pages.append((pre + word + ["s", "", "x", " talk"][k % 4], int(i), "wikitext", None, BODY[("t1", "t2", "t3")[k % 3]]))
+    yield pages, sorted(int(i) for i in site["names"])
     yield [(tp + "!", tpl, "wikitext", None, "own bang"), (tp + "((", tpl, "wikitext", tp + "Zed", ""),
            (tp + "Zed", tpl, "wikitext", None, BODY["t1"]), (tp + "Zed/documentation", tpl, "wikitext", None, "d"),
            ("Zed", 0, "wikitext", None, BODY["t1"])], sorted({0, tpl})
@@ -665,7 +705,7 @@ def abstract_of(site, conc_pages, bodies, inc_of=None):
     for (t, ns, model, red, text) in conc_pages:
         inc = text
         if ns == site["tplns"]:
-            inc = {BODY["t1"]: BODY["t1i"]}.get(text, text)
+            inc = {BODY[b]: BODY[b + "i"] for b in ("t1", "t2", "t3")}.get(text, text)
         res.append({"title": tok(t, ns, site["canon"]), "ns": ns, "model": model,
                     "red": ["-"] if red is None else tok_red(red, site), "body": bid(text), "inc": bid(inc)})
     return res
@@ -811,6 +851,12 @@ def run_v(o: Outcome, plan, counts):
             if counts[key] > MAXV:
                 continue
             why = f"ingestion ({site['lang']}): missing {[(conc(r['title']), r['ns']) for r in b['missing']]}, unexpected {[(conc(r['title']), r['ns']) for r in b['unexpected']]}"
+            key_of = lambda r: (conc(r["title"]), r["ns"], conc(r["redirect"]), r["model"])  # noqa: E731
+            if b["missing"] and sorted(map(key_of, b["missing"])) == sorted(map(key_of, b["unexpected"])):
+                outside = sorted({(conc(r["title"]), r["ns"]) for r in b["missing"] if r["ns"] != site["tplns"]})
+                why += " - altered text: the same pages are stored with another text than demanded" + (
+                    f"; {outside[:3]} are not in the template namespace ({site['tplns']}): their text must be stored as written, whatever the title looks like"
+                    if outside else "")
             if b["why"].startswith("asis"):
                 o.classify(case, why + " (a leading 'Main:' of a title is dropped by add_page)", [DEV_MAIN], cls="V:asis")
             else:
@@ -839,7 +885,9 @@ def run(tier: str) -> int:
         "G: one case = (dump as a sequence of <= MaxLen abstract pages [ns, title kind, model, redirect, body], namespace selection), "
         "all sequences over the pool enumerated by TLC, distinct by (sequence, selection), non-trivial = non-empty dump; second pool GenR: "
         "redirect pages (source namespace x target form [canonical / space / alias / lower-case prefix / leading colon / fragment / underscore] x "
-        "target namespace [main / own / other] x target title) plus the pages pointed to, sequences of <= 2; each is written "
+        "target namespace [main / own / other] x target title) plus the pages pointed to, sequences of <= 2; third pool GenN: title text "
+        "[plain / equal to / beginning with the word Template or Module / 'Template talk' / 'Template:Zed'] x namespace [main, Template, Template talk, "
+        "Appendix, Module, Module talk] x text [noinclude / onlyinclude / includeonly / comment / plain], single pages, and GenNp pairs of them; each is written "
         "as a real .xml.bz2 and ingested. V: random dumps of 1-20 pages over all namespaces of a language + a per-language namespace sweep, distinct by content."
     )
     o.assumptions = [
@@ -861,15 +909,23 @@ def run(tier: str) -> int:
         # redirect targets x source namespaces
         "MC_red": lambda: tlc("MC_Ingest", "MC_Ingest_redT.cfg" if thorough else "MC_Ingest_red.cfg", workers=2, timeout=3000),
         "Demo_Ingest_red.cfg": lambda: tlc("MC_Ingest", "Demo_Ingest_red.cfg", workers=1, check=False),
+        # title text x namespace x inclusion-control markup
+        "MC_names": lambda: tlc("MC_Ingest", "MC_Ingest_names.cfg", workers=1, timeout=3000),
+        "MC_namepairs": lambda: tlc("MC_Ingest", "MC_Ingest_namepairs.cfg", workers=1, timeout=3000),
+        "Demo_Ingest_names.cfg": lambda: tlc("MC_Ingest", "Demo_Ingest_names.cfg", workers=1, check=False),
     }
     if thorough:
         jobs.update(gen_jobs("Gen3", 3, "PoolQ", "SelsT", 2))
         jobs.update(gen_jobs("Gen2", 2, "PoolT", "SelsT", 6))
         jobs.update(gen_jobs("GenR", 2, "PoolRedT", "SelsRed", 3))
         jobs.update(gen_jobs("GenRs", 2, "PoolRed", "SelsRedT", 1))
+        jobs.update(gen_jobs("GenN", 1, "PoolNames", "SelsNamesT", 1))
+        jobs.update(gen_jobs("GenNp", 2, "PoolNamePairs", "SelsNamesT", 1))
     else:
         jobs.update(gen_jobs("Gen3", 3, "PoolQ", "SelsQ", 3))
         jobs.update(gen_jobs("GenR", 2, "PoolRed", "SelsRed", 1))
+        jobs.update(gen_jobs("GenN", 1, "PoolNames", "SelsNames", 1))
+        jobs.update(gen_jobs("GenNp", 2, "PoolNamePairs", "SelsNames", 1))
     res = par(jobs)
     for name, r in res.items():
         o.add_tlc(name, r)
@@ -882,6 +938,10 @@ def run(tier: str) -> int:
     o.extra["demo_redirect_target_rewritten_found_by_tlc"] = bool(r.invariant_violated)
     if not r.invariant_violated:
         raise common.TLCError("Demo_Ingest_red.cfg: RedirectsVerbatim does not reject a target normalised like a title (vacuity guard)")
+    r = res["Demo_Ingest_names.cfg"]
+    o.extra["demo_talk_page_reduced_found_by_tlc"] = bool(r.invariant_violated)
+    if not r.invariant_violated:
+        raise common.TLCError("Demo_Ingest_names.cfg: TextsVerbatim does not reject a talk page reduced like a template (vacuity guard)")
     # ---- G
     counts: dict = {}
     ncases = 0
